@@ -762,6 +762,16 @@ def read_spec(name):
     return o
 
 
+def simple_consts(text, skip=()):
+    """module-level `const NAME: <int type> = <arithmetic over literals>;` items (a change may introduce one for a block size): copied
+    into the module's verus! block so that the functions under contract can name them"""
+    out = []
+    for m in re.finditer(r'^(?:pub(?:\([a-z]+\))? )?const (\w+): (usize|u8|u16|u32|u64|i32|i64|isize) = ([0-9xa-fA-F_+\-*/() <>|&]+);', text, re.M):
+        if m.group(1) not in skip:
+            out.append('pub const %s: %s = %s;' % (m.group(1), m.group(2), m.group(3).strip()))
+    return out
+
+
 def assemble(out_path, only=None):
     src, specs, contracts, fn_outs, hoisted, warnings = build(out_path, only)
     lib = src.get('lib.rs')
@@ -837,6 +847,8 @@ def assemble(out_path, only=None):
         for f in leaves:
             A(strip_doc_comments(get_fn(text, f)), dict(fn='external', kind='external', name=modname + '-leaves', tags=[]))
         A('    verus! {')
+        for c_ in simple_consts(text):
+            A('    ' + c_, dict(fn='external', kind='external', name=modname + '-leaves', tags=[]))
         out.extend(indent(read_spec(modname + '_leaves.rs'), 4))
         out.extend(indent(fns_in('simd::' + modname), 4))
         A('    } // verus!')
@@ -860,6 +872,8 @@ def assemble(out_path, only=None):
         for f in ('match_header_name_char_16_neon', 'match_url_char_16_neon', 'match_header_value_char_16_neon', 'offsetz', 'offsetnz'):
             A(strip_doc_comments(get_fn(neon, f)), ne_ext)
         A('    verus! {')
+        for c_ in simple_consts(neon):
+            A('    ' + c_, ne_ext)
         out.extend(indent(read_spec('neon_leaves.rs'), 4))
         out.extend(indent(fns_in('simd::neon'), 4))
         A('    } // verus!')
